@@ -92,8 +92,9 @@ def check_asgi_http(sent, zerocopy_offered=False, prefix=False, edges=None):
     return probs
 
 
-def check_wsgi(events, prefix=False, edges=None):
-    """events as recorded by drivers.run_wsgi"""
+def check_wsgi(events, prefix=False, edges=None, once=False):
+    """events as recorded by drivers.run_wsgi.  once=True: the application under observation is one of the library's own
+    response objects, which call start_response exactly once (a second call, PEP 3333's exc_info form included, is reported)"""
     probs = []
     started = 0
     items = 0
@@ -109,6 +110,8 @@ def check_wsgi(events, prefix=False, edges=None):
             started += 1
             if started > 1 and not has_exc:
                 probs.append(("wsgi-start_response-called-twice", f"event {i}"))
+            elif started > 1 and once:
+                probs.append(("wsgi-start_response-called-again-with-exc_info", f"event {i}"))
             if items and not has_exc:
                 probs.append(("wsgi-start_response-after-body", f"event {i}"))
             edge("start_response")
